@@ -136,67 +136,84 @@ theorem clock_skew_loses_property :
     ((ops.foldl AMap.step emptyMap) "k").isSome = true := by decide
 
 
-/-! ## 3. repair is a join; gossip converges -/
+/-! ## 3. repair is a join on `(revision, deleted?)`; gossip converges
 
-/-- what an incoming document contributes to the newest state of key `k`. -/
-def contrib (d : Doc) (k : String) : Option Ver := if d.key = k then some (ver d) else none
+Storage may hold two documents with one id (see the model's header); what Query answers and what replicas converge
+to is the newest revision of a key and whether it is a tombstone: `cver d = (rev, deleted?)`, `ctopVer s k`.
+`FlagConsistent s`: all stored documents of one key and revision agree on "deleted?" (two documents of one id are
+both tombstones) — preserved by every repair. -/
 
-/-- `repair_join`: `shard.repair` moves the newest state of every key to the join with the incoming state. -/
-theorem repair_join (s : Shard) (d : Doc) (t : Nat) (k : String) :
-    topVer (repair s d t).1 k = vjoin (topVer s k) (contrib d k) := by
-  by_cases h : d.key = k
-  · subst h; simp only [contrib, if_true]; exact repair_topVer s d t
-  · simp only [contrib, h, if_false, vjoin_none_right]
-    exact repair_topVer_other s d t (Ne.symm h)
+/-- `repair_join`: `shard.repair` moves the newest `(revision, deleted?)` of every key to the join with the
+    incoming one (tombstone over live on the same revision), and keeps storage flag-consistent. -/
+theorem repair_join {s : Shard} (hf : FlagConsistent s) (d : Doc) {t : Nat} (ht : 0 < t) (k : String) :
+    ctopVer (repair s d t).1 k = vjoin (ctopVer s k) (contrib d k) ∧ FlagConsistent (repair s d t).1 := by
+  have h := repair_ctopVer hf d ht
+  refine ⟨?_, h.2⟩
+  by_cases hk : d.key = k
+  · subst hk; simp only [contrib, if_true]; exact h.1
+  · simp only [contrib, hk, if_false, vjoin_none_right]
+    exact repair_ctopVer_other s d t (Ne.symm hk)
 
-/-- `repair_monotone`: the newest state of a key never goes down (revision first, then tombstone over live,
-    then later tombstone), whatever is sent. -/
-theorem repair_monotone (s : Shard) (d : Doc) (t : Nat) (k : String) :
-    ole (topVer s k) (topVer (repair s d t).1 k) := by
-  rw [repair_join]; exact ole_vjoin_left _ _
+/-- `repair_monotone`: the newest state of a key never goes down — not to a lower revision, and not from a
+    tombstone back to the live document of the same revision — whatever is sent. -/
+theorem repair_monotone {s : Shard} (hf : FlagConsistent s) (d : Doc) {t : Nat} (ht : 0 < t) (k : String) :
+    ole (ctopVer s k) (ctopVer (repair s d t).1 k) := by
+  rw [(repair_join hf d ht k).1]; exact ole_vjoin_left _ _
 
-/-- … and a document that is not newer than the stored newest one changes nothing at all, and the stored one is
-    handed back (`selfNewer`) for the sender to adopt. -/
-theorem repair_never_replaces_newer_or_equal (s : Shard) (d l : Doc) (t : Nat) (hl : top s d.key = some l)
-    (h : ¬ vlt (ver l) (ver d)) : repair s d t = (s, false, some l) := repair_refuse t hl h
+/-- … and a document that is not newer than the stored newest one (`Refuses`: lower revision, or same revision and
+    not a later delete time — in particular the live document against a tombstone) changes nothing at all; the
+    stored one is handed back (`selfNewer`) for the sender to adopt. -/
+theorem repair_never_replaces_newer_or_equal (s : Shard) (d l : Doc) (t : Nat) (hl : topLast s d.key = some l)
+    (h : Refuses l d) : repair s d t = (s, false, some l) := repair_refuse t hl h
 
 example : repair [⟨"k", 5, 5, [("a", "1")], 9⟩] ⟨"k", 5, 5, [("a", "1")], 0⟩ 77
     = ([⟨"k", 5, 5, [("a", "1")], 9⟩], false, some ⟨"k", 5, 5, [("a", "1")], 9⟩) := by decide
 
-/-- `repair_idempotent`: repeating a repair changes nothing. -/
-theorem repair_idempotent (s : Shard) (d : Doc) (t t' : Nat) :
+/-- `repair_idempotent`: repeating a repair changes nothing (the document just written is the one the next
+    comparison picks). -/
+theorem repair_idempotent {s : Shard} (hf : FlagConsistent s) (d : Doc) {t : Nat} (ht : 0 < t) (t' : Nat) :
     (repair (repair s d t).1 d t').1 = (repair s d t).1 := by
-  rcases repair_top_cases s d t with h | h
-  · rw [repair_refuse t' h (vlt_irrefl _)]
-  · cases hl : top s d.key with
-    | none => rw [(repair_empty t hl).1] at h; rw [hl] at h; cases h
-    | some l =>
-      by_cases hv : vlt (ver l) (ver d)
-      · rw [repair_refuse t' (repair_accept t hl hv).1 (vlt_irrefl _)]
-      · rw [repair_refuse t hl hv]
-        rw [repair_refuse t' hl hv]
+  have hrefl : Refuses d d := Or.inr ⟨rfl, Nat.le_refl _⟩
+  cases hl : topLast s d.key with
+  | none =>
+    rw [repair_empty_eq t hl]
+    rw [repair_refuse t' (repair_empty_spec hf hl).2.2 hrefl]
+  | some l =>
+    by_cases h : Refuses l d
+    · rw [repair_refuse t hl h, repair_refuse t' hl h]
+    · rw [repair_accept_eq t hl h]
+      rw [repair_refuse t' (repair_accept_spec hf ht hl h).2.2 hrefl]
 
 /-- `repair_commutative`: the newest state of every key after two repairs does not depend on their order
     (nor on the delete times drawn while tombstoning older documents). -/
-theorem repair_commutative (s : Shard) (a b : Doc) (t₁ t₂ t₃ t₄ : Nat) (k : String) :
-    topVer (repair (repair s a t₁).1 b t₂).1 k = topVer (repair (repair s b t₃).1 a t₄).1 k := by
-  simp only [repair_join]
+theorem repair_commutative {s : Shard} (hf : FlagConsistent s) (a b : Doc) {t₁ t₂ t₃ t₄ : Nat}
+    (h₁ : 0 < t₁) (h₂ : 0 < t₂) (h₃ : 0 < t₃) (h₄ : 0 < t₄) (k : String) :
+    ctopVer (repair (repair s a t₁).1 b t₂).1 k = ctopVer (repair (repair s b t₃).1 a t₄).1 k := by
+  have ha := repair_join hf a h₁ k
+  have hb := repair_join hf b h₃ k
+  rw [(repair_join (repair_join hf a h₁ k).2 b h₂ k).1, (repair_join (repair_join hf b h₃ k).2 a h₄ k).1, ha.1, hb.1]
   rw [vjoin_assoc, vjoin_assoc, vjoin_comm (contrib a k)]
+
+/-- the fixed `shard.repair` still stores two documents with one id when a tombstone is repaired onto the live
+    document of the same revision (both tombstones; upstream `TestRepair` asserts the two documents). -/
+theorem repair_stores_two_documents_with_one_id :
+    (repair [⟨"k", 5, 5, [("a", "1")], 0⟩] ⟨"k", 5, 5, [("a", "1")], 9⟩ 77).1
+      = [⟨"k", 5, 5, [("a", "1")], 77⟩, ⟨"k", 5, 5, [("a", "1")], 9⟩] := by decide
 
 /-- Fairness: for the key under consideration every two replicas take part in at least one gossip exchange with
     each other (in either role, anywhere in the sequence). -/
 def Fair (n : Nat) (k : String) (ops : List COp) : Prop :=
   ∀ i j, i < n → j < n → i ≠ j → COp.g i j k ∈ ops ∨ COp.g j i k ∈ ops
 
-/-- `gossip_converges`: for ANY initial contents of the replicas (each may have missed arbitrary updates and
-    deletions) and ANY sequence of single-leaf gossip exchanges and one-way repairs over any keys that is fair for
-    key `k`, every replica ends with the same newest state of `k`: the join (highest revision; tombstone over
-    live; later tombstone) of the initial newest states. -/
-theorem gossip_converges (c : Cluster) (k : String) (ops : List COp)
+/-- `gossip_converges`: for ANY flag-consistent initial contents of the replicas (each may have missed arbitrary
+    updates and deletions) and ANY sequence of single-leaf gossip exchanges and one-way repairs over any keys that is
+    fair for key `k`, every replica ends with the same newest state of `k`: the join (highest revision; tombstone
+    over live) of the initial newest states. -/
+theorem gossip_converges (c : Cluster) (k : String) (ops : List COp) (hinv : CInv c)
     (hvalid : ∀ op ∈ ops, op.valid c.reps.length) (hfair : Fair c.reps.length k ops) :
     ∀ i, i < c.reps.length → tvf (crun c ops) k i = maxOver (tvf c k) c.reps.length := by
   intro i hi
-  rw [(crun_abs k ops c hvalid).1]
+  rw [(crun_abs k ops c hvalid hinv).1]
   apply abstract_converges c.reps.length (tvf c k) _ _ _ i hi
   · intro j hj
     simp [tvf, topd, List.getElem?_eq_none hj]
@@ -205,40 +222,34 @@ theorem gossip_converges (c : Cluster) (k : String) (ops : List COp)
     · left; exact List.mem_map.2 ⟨_, h, by simp [absOp]⟩
     · right; exact List.mem_map.2 ⟨_, h, by simp [absOp]⟩
 
-/-- two newest documents of `k` in the cluster with the same version are the same document (true of every state
-    the system reaches from empty replicas with a strictly increasing clock: a revision identifies one apply,
-    a delete time one deletion event). -/
-def CoherentTops (c : Cluster) (k : String) : Prop :=
-  ∀ i j d e, topd c k i = some d → topd c k j = some e → ver d = ver e → d = e
+/-- a revision identifies one apply: documents of one key and revision have the same create revision and tags,
+    wherever they are stored (true of every state reached with a strictly increasing clock). -/
+def Coherent (c : Cluster) : Prop :=
+  ∀ s ∈ c.reps, ∀ s' ∈ c.reps, ∀ x ∈ s, ∀ y ∈ s', x.key = y.key → x.rev = y.rev → x.created = y.created ∧ x.tags = y.tags
 
-example : CoherentTops { reps := [[⟨"k", 10, 10, [("a", "1")], 3⟩], [⟨"k", 10, 10, [("a", "1")], 3⟩, ⟨"k", 4, 4, [], 2⟩]], clk := 9 } "k" := by
-  intro i j d e hd he _
-  have hi : i = 0 ∨ i = 1 ∨ 2 ≤ i := by omega
-  have hj : j = 0 ∨ j = 1 ∨ 2 ≤ j := by omega
-  have t0 : topd { reps := [[⟨"k", 10, 10, [("a", "1")], 3⟩], [⟨"k", 10, 10, [("a", "1")], 3⟩, ⟨"k", 4, 4, [], 2⟩]], clk := 9 } "k" 0
-      = some ⟨"k", 10, 10, [("a", "1")], 3⟩ := by decide
-  have t1 : topd { reps := [[⟨"k", 10, 10, [("a", "1")], 3⟩], [⟨"k", 10, 10, [("a", "1")], 3⟩, ⟨"k", 4, 4, [], 2⟩]], clk := 9 } "k" 1
-      = some ⟨"k", 10, 10, [("a", "1")], 3⟩ := by decide
-  have t2 : ∀ n, 2 ≤ n → topd { reps := [[⟨"k", 10, 10, [("a", "1")], 3⟩], [⟨"k", 10, 10, [("a", "1")], 3⟩, ⟨"k", 4, 4, [], 2⟩]], clk := 9 } "k" n
-      = none := by
-    intro n hn
-    simp only [topd]
-    rw [List.getElem?_eq_none (by simpa using hn)]
-  rcases hi with rfl | rfl | hi <;> rcases hj with rfl | rfl | hj <;>
-    simp_all
+/-- what a client can see of a document. -/
+def content (d : Doc) : Nat × Nat × Tags × Bool := (d.rev, d.created, d.tags, decide (0 < d.del))
 
-/-- `gossip_converges_docs`: … and the newest DOCUMENTS (value or tombstone, with tags and create revision) are
-    then identical on all replicas. -/
-theorem gossip_converges_docs (c : Cluster) (k : String) (ops : List COp)
-    (hvalid : ∀ op ∈ ops, op.valid c.reps.length) (hfair : Fair c.reps.length k ops) (hc : CoherentTops c k) :
-    ∀ i j, i < c.reps.length → j < c.reps.length → topd (crun c ops) k i = topd (crun c ops) k j := by
+/-- `gossip_converges_docs`: … and the newest VALUE (revision, create revision, tags) or tombstone is then
+    identical on all replicas. -/
+theorem gossip_converges_docs (c : Cluster) (k : String) (ops : List COp) (hinv : CInv c)
+    (hvalid : ∀ op ∈ ops, op.valid c.reps.length) (hfair : Fair c.reps.length k ops) (hc : Coherent c) :
+    ∀ i j, i < c.reps.length → j < c.reps.length →
+      (topd (crun c ops) k i).map content = (topd (crun c ops) k j).map content := by
   intro i j hi hj
-  have e1 := gossip_converges c k ops hvalid hfair i hi
-  have e2 := gossip_converges c k ops hvalid hfair j hj
-  obtain ⟨i', hi'⟩ := (crun_abs k ops c hvalid).2 i
-  obtain ⟨j', hj'⟩ := (crun_abs k ops c hvalid).2 j
-  have e : (topd (crun c ops) k i).map ver = (topd (crun c ops) k j).map ver := by
+  have e1 := gossip_converges c k ops hinv hvalid hfair i hi
+  have e2 := gossip_converges c k ops hinv hvalid hfair j hj
+  have hfrom := (crun_abs k ops c hvalid hinv).2.2.1
+  have e : (topd (crun c ops) k i).map cver = (topd (crun c ops) k j).map cver := by
     simp only [tvf] at e1 e2; rw [e1, e2]
+  -- a newest document lies in a shard of the final cluster
+  have loc : ∀ n d, topd (crun c ops) k n = some d → ∃ s ∈ (crun c ops).reps, d ∈ s ∧ d.key = k := by
+    intro n d h
+    simp only [topd] at h
+    split at h
+    · rename_i s hs
+      exact ⟨s, List.mem_of_getElem? hs, (top_spec h).1, (top_spec h).2.1⟩
+    · cases h
   cases hd : topd (crun c ops) k i with
   | none =>
     rw [hd] at e
@@ -251,9 +262,18 @@ theorem gossip_converges_docs (c : Cluster) (k : String) (ops : List COp)
     | none => rw [he] at e; simp at e
     | some x =>
       rw [he] at e
-      simp at e
-      rw [hc i' j' d x (by rw [← hi', hd]) (by rw [← hj', he]) e]
-
+      simp only [Option.map_some, Option.some.injEq, cver, Prod.mk.injEq] at e
+      obtain ⟨s1, hs1, hd1, hk1⟩ := loc i d hd
+      obtain ⟨s2, hs2, hd2, hk2⟩ := loc j x he
+      obtain ⟨o1, ho1, y1, hy1, c1⟩ := hfrom s1 hs1 d hd1
+      obtain ⟨o2, ho2, y2, hy2, c2⟩ := hfrom s2 hs2 x hd2
+      have hco := hc o1 ho1 o2 ho2 y1 hy1 y2 hy2
+        (by rw [c1.1, c2.1, hk1, hk2]) (by rw [c1.2.1, c2.2.1]; exact e.1)
+      have hflag : decide (0 < d.del) = decide (0 < x.del) := by
+        have := e.2
+        by_cases h1 : 0 < d.del <;> by_cases h2 : 0 < x.del <;> simp [h1, h2] at this ⊢
+      simp only [Option.map_some, content, Option.some.injEq, Prod.mk.injEq]
+      exact ⟨e.1, by rw [← c1.2.2.1, ← c2.2.2.1]; exact hco.1, by rw [← c1.2.2.2, ← c2.2.2.2]; exact hco.2, hflag⟩
 
 /-- non-vacuity of `gossip_converges`: a replica that missed a deletion, one that saw it, an empty one;
     three exchanges, each pair once. -/
@@ -262,8 +282,12 @@ def exampleCluster : Cluster :=
 
 def exampleOps : List COp := [.g 2 0 "k", .r 0 1 "j", .g 1 2 "k", .g 0 1 "k"]
 
-example : (∀ op ∈ exampleOps, op.valid exampleCluster.reps.length) ∧ Fair exampleCluster.reps.length "k" exampleOps := by
-  constructor
+example : CInv exampleCluster ∧ (∀ op ∈ exampleOps, op.valid exampleCluster.reps.length) ∧
+    Fair exampleCluster.reps.length "k" exampleOps ∧ Coherent exampleCluster := by
+  refine ⟨⟨?_, by decide⟩, ?_, ?_, ?_⟩
+  · intro s hs
+    simp only [exampleCluster, List.mem_cons, List.mem_nil_iff, or_false] at hs
+    rcases hs with rfl | rfl | rfl <;> intro x hx y hy <;> simp_all
   · intro op hop
     simp only [exampleOps, List.mem_cons, List.mem_nil_iff, or_false] at hop
     rcases hop with rfl | rfl | rfl | rfl <;> simp [COp.valid, exampleCluster]
@@ -272,8 +296,11 @@ example : (∀ op ∈ exampleOps, op.valid exampleCluster.reps.length) ∧ Fair 
     have hi' : i = 0 ∨ i = 1 ∨ i = 2 := by omega
     have hj' : j = 0 ∨ j = 1 ∨ j = 2 := by omega
     rcases hi' with rfl | rfl | rfl <;> rcases hj' with rfl | rfl | rfl <;> simp [exampleOps] at hij ⊢
+  · intro s hs s' hs' x hx y hy _ _
+    simp only [exampleCluster, List.mem_cons, List.mem_nil_iff, or_false] at hs hs'
+    rcases hs with rfl | rfl | rfl <;> rcases hs' with rfl | rfl | rfl <;> simp_all
 
-example : (List.range 3).map (tvf (crun exampleCluster exampleOps) "k") = [some (10, 3), some (10, 3), some (10, 3)] := by
+example : (List.range 3).map (tvf (crun exampleCluster exampleOps) "k") = [some (10, 1), some (10, 1), some (10, 1)] := by
   decide
 
 /-! ## 4. query-time de-duplication -/
@@ -323,8 +350,8 @@ def SortedDedupOrderedStatement : Prop :=
 
 /-! ## 5. the code at the pinned commit (finding F18a) -/
 
-/-- `shard.repair` as written: a replica that missed a deletion overwrites the tombstone of the same revision —
-    the newest state goes DOWN (not monotone). -/
+/-- `shard.repair` as written at the pinned commit (`==` instead of `>=`): a replica that missed a deletion
+    overwrites the tombstone of the same revision — the newest state goes DOWN (not monotone). -/
 theorem repairLegacy_resurrects :
     let s : Shard := [⟨"k", 5, 5, [("a", "1")], 9⟩]
     (top s "k").map (·.del) = some 9 ∧
@@ -334,13 +361,18 @@ theorem repairLegacy_resurrects :
 theorem repairLegacy_not_commutative :
     let a : Doc := ⟨"k", 5, 5, [("a", "1")], 0⟩
     let b : Doc := ⟨"k", 5, 5, [("a", "1")], 9⟩
-    (top (repairLegacy (repairLegacy [] a 70).1 b 71).1 "k").map (·.del) = some 9 ∧
-    (top (repairLegacy (repairLegacy [] b 70).1 a 71).1 "k").map (·.del) = some 0 := by decide
+    ctopVer (repairLegacy (repairLegacy [] a 70).1 b 71).1 "k" = some (5, 1) ∧
+    ctopVer (repairLegacy (repairLegacy [] b 70).1 a 71).1 "k" = some (5, 0) := by decide
 
-/-- … and a tombstone repaired onto the live document of the same revision leaves two documents with one id. -/
-theorem repairLegacy_duplicates_id :
-    ((repairLegacy [⟨"k", 5, 5, [("a", "1")], 0⟩] ⟨"k", 5, 5, [("a", "1")], 9⟩ 77).1.map Doc.id)
-      = [("k", 5), ("k", 5)] := by decide
+/-- residual finding F18c (fixed code too): with two documents of one id in a shard, the id lookup of a delete
+    (limit = number of listed ids) is used up by the pair and a LIVE revision named in the same list stays live:
+    Delete answers `deleted` and the next Query still returns the property. -/
+theorem dup_and_lookup_limit_lose_a_delete :
+    let c : Cluster := { reps := [[⟨"k", 10, 10, [("a", "1")], 5⟩],
+                                  [⟨"k", 10, 10, [("a", "1")], 7⟩, ⟨"k", 10, 10, [("a", "1")], 5⟩, ⟨"k", 40, 40, [("b", "x")], 0⟩],
+                                  [⟨"k", 10, 10, [("a", "1")], 0⟩]], clk := 60 }
+    (deleteOp c allUp "k").2 = .ok true ∧
+    (queryOp (deleteOp c allUp "k").1 allUp ["k"] false).2.props = [⟨"k", 40, 40, [("b", "x")], 0⟩] := by decide
 
 /-- the unsorted de-duplication as written: with the same revision live on one node and deleted on another, the
     answer depends on the (random) iteration order of the node map. -/
